@@ -70,7 +70,10 @@ class HTTPConnection(Mapping[str, Any], MoreInfoFromHeaderMixin):
         """
         The full URL of this request.
         """
-        return URL(environ=self._environ)
+        try:
+            return URL(environ=self._environ)
+        except ValueError as exc:  # undecodable path or query, malformed Host
+            raise HTTPException(400, content=f"Invalid URL: {exc}") from None
 
     @cached_property
     def path_params(self) -> Dict[str, Any]:
